@@ -288,7 +288,7 @@ class Result:
 # ---------------------------------------------------------------------------------------------
 # property theorem files (coq/Cxx.v): always recompiled so that Print Assumptions is re-read
 
-CERT_MODULES = ['BridgePaths', 'C02Bridge', 'C03Bridge', 'C13Proofs', 'FactorI', 'FactorU', 'PathGrammarInst', 'PctWf', 'ValidSetInst']
+CERT_MODULES = ['BridgePaths', 'C02Bridge', 'C03Bridge', 'C13Proofs', 'C13Ascii', 'FactorI', 'FactorU', 'PathGrammarInst', 'PctWf', 'ValidSetInst']
 CERT_RECORD = os.path.join(VERIF, 'coqchk_certs.json')
 
 def coqchk_clean(rc, txt):
